@@ -606,3 +606,8 @@ from .ctx import guard_methods as _gm  # noqa: E402
 
 for _cls, _lab in ((Series, "pandas.Series"), (Rolling, "pandas.Rolling"), (Timestamp, "pandas.Timestamp"), (DatetimeIndex, "pandas.DatetimeIndex"), (IntIndex, "pandas.Index"), (IntSeries, "pandas.Series"), (BoolSeries, "pandas.Series"), (TimedeltaIndex, "pandas.TimedeltaIndex")):
     _gm(_cls, _lab)
+
+from .npmodel import _fill_missing_operators as _fmo  # noqa: E402
+
+for _cls in (Series, DatetimeIndex, IntIndex, IntSeries, BoolSeries, TimedeltaIndex):
+    _fmo(_cls, "pandas." + _cls.__name__)
